@@ -437,6 +437,45 @@ theorem authenticated_with_proven_certificate {α : Type} (first : α) (appended
     peerCertificate (first :: appended) = some first ∧ peerCertificate (first :: appended) = peerCertificate (first :: appended') :=
   ⟨rfl, rfl⟩
 
+/-- **the decrypted list is a function of the node's DID/keys and of the header it is given**: two nodes that agree on
+    DID, resolvability and key agreement keys decrypt EVERY header to the same result, whatever their DAG, payload store,
+    conversations, gossip queues, peers and clock are — i.e. whatever they handled before. (No earlier transaction,
+    query or header can influence the list a header decrypts to.) -/
+theorem decryptPAL_depends_only_on_keys_and_header (env : Env) (n n' : Node) (hdr : List Nat)
+    (hd : n.did = n'.did) (hr : n.resolvable = n'.resolvable) (hk : n.kaks = n'.kaks) :
+    decryptPAL env n hdr = decryptPAL env n' hdr := by
+  simp only [decryptPAL, hd, hr, hk]
+
+/-- … and it depends on the WHOLE header, not on a prefix: headers that share their first entry decrypt to different lists -/
+theorem header_prefix_does_not_determine_list :
+    ∃ (env : Env) (n : Node) (c other other' : Nat),
+      decryptPAL env n [c, other] = .pal ["A", "B"] ∧ decryptPAL env n [c, other'] = .pal ["A", "E"] :=
+  ⟨{ decode := fun _ _ => .fail, order := id, dec := fun kid c => if kid = "A#k" ∧ c = 1 then .ok [some "A", some "B"]
+        else if kid = "A#k" ∧ c = 2 then .ok [some "A", some "E"] else .fail },
+   { id := 0, did := "A", kaks := [⟨"A#k", true⟩] }, 0, 1, 2, by decide, by decide⟩
+
+/-- every envelope handed to `Connection.Send` is freshly allocated at the Send site (the connection only queues the pointer and
+    marshals it later): no `sync.Pool` in the package; envelope and message are composite literals everywhere -/
+theorem fact_sent_envelopes_fresh :
+    Facts.C15.v2SyncPools = [] ∧
+    Facts.C15.v2SendEnvelopes =
+      ["handleTransactionPayloadQuery:&Envelope{}<-&Envelope_TransactionPayload{}", "handleTransactionPayloadQuery:&Envelope{}<-&Envelope_TransactionPayload{}",
+       "handleTransactionPayloadQuery:&Envelope{}<-&Envelope_TransactionPayload{}", "handleTransactionPayloadQuery:&Envelope{}<-&Envelope_TransactionPayload{}",
+       "handleTransactionPayloadQuery:&Envelope{}<-&Envelope_TransactionPayload{}", "handleTransactionPayloadQuery:&Envelope{}<-&Envelope_TransactionPayload{}",
+       "handlePrivateTxRetry:&Envelope{}<-&Envelope_TransactionPayloadQuery{}", "sendGossipMsg:&Envelope{}<-&Envelope_Gossip{}",
+       "sendTransactionListQuery:&Envelope{}<-&Envelope_TransactionListQuery{}", "sendTransactionList:&Envelope{}<-&Envelope_TransactionList{}",
+       "sendTransactionRangeQuery:&Envelope{}<-&Envelope_TransactionRangeQuery{}", "sendState:&Envelope{}<-&Envelope_State{}",
+       "sendTransactionSet:&Envelope{}<-&Envelope_TransactionSet{}", "broadcastDiagnostics:&Envelope{}<-&Envelope_DiagnosticsBroadcast{}"] := by decide
+
+/-- `decryptPAL` touches the node DID, the DID resolver and the decrypter only; `protocol` has no cache of decrypted lists -/
+theorem fact_decryptPAL_stateless :
+    Facts.C15.decryptPALTouches = ["nodeDID", "didResolver", "decrypter"] ∧
+    Facts.C15.protocolFields =
+      ["cancel func()", "config Config", "state dag.State", "ctx context.Context", "routines *sync.WaitGroup", "didResolver resolver.DIDResolver",
+       "privatePayloadReceiver dag.Notifier", "decrypter crypto.Decrypter", "connectionList grpc.ConnectionList", "nodeDID did.DID",
+       "connectionManager transport.ConnectionManager", "cMan *conversationManager", "gManager gossip.Manager", "diagnosticsMan *peerDiagnosticsManager",
+       "sender messageSender", "listHandler *transactionListHandler", "dagStore stoabs.KVStore"] := by decide
+
 theorem encryptCount_ok : ∀ (parts : List KeyRes) (k : Nat), encryptCount parts = .ok k → k = parts.length ∧ ∀ p ∈ parts, p = .ok := by
   intro parts
   induction parts with
